@@ -305,3 +305,25 @@ func VerifC02AfterFailure() {
 	vAfterFailure()
 	nd.Reach("C02.afterfailure")
 }
+
+// VerifC02ConvertError: an error is part of the outcome, so it too is a function of template and
+// bindings: a map handed to a registered filter whose parameter is a typed map fails on the same
+// element whatever order the runtime iterates the map in.
+func VerifC02ConvertError() {
+	e := NewEngine()
+	e.RegisterFilter("mp", func(m map[string]int) int { return len(m) })
+	mm := map[string]any{"b": "y", "a": "x", "c": 3}
+	nd.SymOrderMap(mm)
+	b := Bindings{"m": mm}
+	_, err1 := e.ParseAndRenderString("{{ m | mp }}", b)
+	nd.Assert(err1 != nil, "ill-typed-map-element-is-an-error")
+	for i := 1; i < c02Reps() && err1 != nil; i++ {
+		_, err2 := e.ParseAndRenderString("{{ m | mp }}", b)
+		nd.Assert(err2 != nil && err1.Error() == err2.Error(), "same-conversion-error-every-run")
+	}
+	ok := map[string]any{"b": 2, "a": 1}
+	nd.SymOrderMap(ok)
+	out, err := e.ParseAndRenderString("{{ m | mp }}", Bindings{"m": ok})
+	nd.Assert(err == nil && out == "2", "well-typed-map-converts")
+	nd.Reach("C02.converterror")
+}
